@@ -667,8 +667,13 @@ def _fill_coeff(old_coeffs, old_tlist, full_tlist, args=None, tol=1.0e-10):
             if t - old_tlist[-1] > tol:
                 new_coeff[new_ind] = 0.0
                 continue
-            # tol is required because of the floating-point error
-            if old_tlist[old_ind + 1] <= t + tol:
+            # tol is required because of the floating-point error; the index
+            # catches up over every slot that ends before t (slots shorter
+            # than tol have no point of their own in the merged grid)
+            while (
+                old_ind + 1 < len(old_tlist)
+                and old_tlist[old_ind + 1] <= t + tol
+            ):
                 old_ind += 1
             new_coeff[new_ind] = old_coeffs[old_ind]
     else:
